@@ -751,16 +751,14 @@ func (p *parser) parseFString() *FString {
 }
 
 func (p *parser) findBrace(s string) int {
-	last := ' '
-	for i, c := range s {
-		if c == '{' && last != '{' && last != '$' {
-			if i+1 < len(s) && s[i+1] == '{' {
-				last = c
-				continue
-			}
+	for i := 0; i < len(s); i++ {
+		if s[i] != '{' {
+			continue
+		} else if i+1 < len(s) && s[i+1] == '{' {
+			i++ // escaped brace; skip both so that a third one can open a variable
+		} else if i == 0 || s[i-1] != '$' {
 			return i
 		}
-		last = c
 	}
 	return -1
 }
